@@ -258,6 +258,8 @@ def gen_atx(c):
     else:
         inl = gen_inlines(c, allow_break=False, n=1 + t.below(3)) if not t.chance(20) else []
     closing = '' if (c.canonical and False) else t.choice(['', '', '#', '###', '##'])
+    if not inl and 'empty_atx_closing' in c.exclude:
+        closing = ''
     return N('atx', level=level, inl=inl, closing=closing, sp=1 if c.canonical else t.weighted([(4, 1), (1, 2), (1, 3)]),
              csp=1 if c.canonical else t.weighted([(4, 1), (1, 3)]), trail='' if c.canonical else t.choice(['', '', '  ']))
 
@@ -364,7 +366,7 @@ def gen_list(c, depth, in_quote, nested=False):
     loose = t.chance(100)
     items = []
     for i in range(n_items):
-        if t.chance(14):
+        if t.chance(14) and 'empty_item' not in c.exclude:
             children = []     # empty item
         elif loose:
             children = gen_blocks(c, depth + 1, 1 + t.below(3), True, in_quote)
@@ -397,7 +399,8 @@ def gen_table(c):
         inl = gen_inlines(c, 1, True, False, 1 + t.below(2), True)
         return inl
 
-    return N('table', aligns=[t.choice([None, None, 'left', 'center', 'right']) for _ in range(nc)],
+    return N('table', aligns=[t.choice([None, None, 'left', 'center', 'right'] if not c.canonical else [None, None, 'center', 'right'])
+                              for _ in range(nc)],
              header=[cell() or [gen_word(c)] for _ in range(nc)],
              rows=[[cell() for _ in range(nc if not t.chance(40) else 1 + t.below(nc))] for _ in range(t.below(4))],
              dashes=[3 if c.canonical else t.choice([1, 3, 5]) for _ in range(nc)])
